@@ -26,6 +26,10 @@ fn build_logp(case: &J) -> TestLogp {
         mu = vec![0.0; dim];
     }
     let mut l = TestLogp::gaussian(prec, mu);
+    let dp = jvf(case, "dense_prec");
+    if dp.len() == dim * dim && dim > 0 {
+        l.dense_prec = Some(dp);
+    }
     if let Some(rf) = case.get("region_fault").and_then(|x| x.as_array()) {
         let thr = rf[0].as_f64().unwrap();
         let f = Fault::parse(rf[1].as_str().unwrap()).unwrap();
@@ -122,6 +126,12 @@ fn run_draws<M: nuts_rs::Math, C: Chain<M>>(
                     "depth": stat_i64(&all, "depth"),
                     "transformation_index": stat_i64(&all, "transformation_index"),
                     "update_id": stat_i64(&all, "transformation_update_id"),
+                    "fisher_distance": stat_f64(&all, "fisher_distance").map(bits),
+                    "mass_matrix_inv": stat_vec(&all, "mass_matrix_inv"),
+                    "transformation_mu": stat_vec(&all, "transformation_mu"),
+                    "mass_matrix_stds": stat_vec(&all, "mass_matrix_stds"),
+                    "mass_matrix_eigvals": stat_vec(&all, "mass_matrix_eigvals"),
+                    "num_eigenvalues": stat_i64(&all, "num_eigenvalues"),
                     "flow_updates": after_updates - before_updates,
                     "pos_finite": pos.iter().all(|x| x.is_finite()),
                     "hook": J::Null,
@@ -135,6 +145,13 @@ fn run_draws<M: nuts_rs::Math, C: Chain<M>>(
         }
     }
     out
+}
+
+fn stat_vec(stats: &[(&str, Option<nuts_rs::Value>)], name: &str) -> Option<Vec<String>> {
+    stats.iter().find(|(n, _)| *n == name).and_then(|(_, v)| match v {
+        Some(nuts_rs::Value::F64(x)) => Some(x.iter().map(|y| y.to_bits().to_string()).collect()),
+        _ => None,
+    })
 }
 
 fn adapt_state_json(s: Option<(u8, [f64; 4], u64)>) -> J {
@@ -231,6 +248,8 @@ fn run_case(case: &J) -> J {
             s.num_tune = num_tune;
             s.num_draws = num_draws;
             s.maxdepth = ju(case, "maxdepth", 5);
+            s.adapt_options.mass_matrix_options.store_mass_matrix = jb(case, "store_mass_matrix", false);
+            s.adapt_options.mass_matrix_options.use_grad_based_estimate = jb(case, "use_grad_based_estimate", true);
             apply_euclid_opts!(s, case);
             run_global!(s, case, logp)
         }
@@ -239,6 +258,9 @@ fn run_case(case: &J) -> J {
             s.num_tune = num_tune;
             s.num_draws = num_draws;
             s.maxdepth = ju(case, "maxdepth", 5);
+            s.adapt_options.mass_matrix_options.store_mass_matrix = jb(case, "store_mass_matrix", false);
+            s.adapt_options.mass_matrix_options.gamma = jf(case, "lr_gamma", s.adapt_options.mass_matrix_options.gamma);
+            s.adapt_options.mass_matrix_options.eigval_cutoff = jf(case, "eigval_cutoff", s.adapt_options.mass_matrix_options.eigval_cutoff);
             apply_euclid_opts!(s, case);
             run_global!(s, case, logp)
         }
